@@ -18,6 +18,7 @@ EXPLANATION = "exhaustive sub-domain: all pairs of span lists with <=2 spans ove
 ASSUMPTIONS = ["span endpoints are ints/floats with start<=end"]
 FLOORS = {"mixed-relations": (0.6, None)}
 SHARDS = {"quick": 12, "thorough": 14}
+CASE_FUEL = 500000
 
 REL_NAMES = ["Exact", "PartOf", "Includes", "Overlaps"]
 
